@@ -70,7 +70,7 @@ type runner struct {
 	seen  map[[32]byte]bool
 }
 
-func (r *runner) tag(t string)  { r.sum.Distribution[t]++ }
+func (r *runner) tag(t string) { r.sum.Distribution[t]++ }
 func (r *runner) sample(s string) {
 	if len(r.sum.Samples) < 4 {
 		if len(s) > 600 {
